@@ -45,7 +45,7 @@ func c18QuickVectors() [][]int {
 func init() {
 	register(&Prop{
 		ID: "C18",
-		Rule: "a table is generated from a vector of the rule-relevant features: editable ancestor; table role in {none, presentation, grid, treegrid, landmark(main)}; descendant role in {none, row, gridcell, landmark(search)}; datatable=0; nested 1x1 table; body rows in {1,2,3,19,20}; columns in {1,2,4,5}; header structure in {none, caption, thead, tfoot, colgroup, col, th}, the last five also preceded by a text-less <caption>; cell feature in {none, abbr, headers, scope, lone <abbr> child}; summary; total cells in {12,10,11} at 3x4; embedded {none, embed, object, applet, iframe}; placed in a div, an article>section, a blockquote or a td of a layout table, after two long paragraphs. Observation: the table is data iff a <table> element occurs in Result.Node. Oracle: a reference implementation of the stated cascade. thorough = the full cross product of the grid (exhaustive); quick = base + all single settings + all pairs of settings of two different dimensions + a seeded sample of the grid. Every vector is a distinct non-trivial case.",
+		Rule: "a table is generated from a vector of the rule-relevant features: editable ancestor (a wrapper div, <body> or <html>); table role in {none, presentation, grid, treegrid, landmark(main)}; descendant role in {none, row, gridcell, landmark(search)}; datatable=0; nested 1x1 table; body rows in {1,2,3,19,20}; columns in {1,2,4,5}; header structure in {none, caption, thead, tfoot, colgroup, col, th, th whose label sits in a <button>}, the last five also preceded by a text-less <caption>; cell feature in {none, abbr, headers, scope, lone <abbr> child}; summary; total cells in {12,10,11} at 3x4; embedded {none, embed, object, applet, iframe}; placed in a div, an article>section, a blockquote or a td of a layout table, after two long paragraphs. Observation: the table is data iff a <table> element occurs in Result.Node. Oracle: a reference implementation of the stated cascade. thorough = the full cross product of the grid (exhaustive); quick = base + all single settings + all pairs of settings of two different dimensions + a seeded sample of the grid. Every vector is a distinct non-trivial case.",
 		Assumptions: []string{
 			"landmark roles used are main/search (navigation/complementary are also 'unlikely' roles of the converter and would blind the observer)",
 			"a retained table follows retained text, so 'no <table> in the output' means 'classified as layout'; placement inside <li> is not generated because the text of a layout table inside a list item is cloned together with its table ancestors, which blinds this observer",
